@@ -23,6 +23,10 @@ Extraction rules (DESIGN.md §5-C16)
   * Calls of IR functions become `call f tmap cbs`; a static function passed as function-pointer
     argument is bound as callback together with the tables found in the local struct passed as
     the accompanying `void *` argument.
+  * A callback that branches on a boolean field of its data struct (`args->added`) is specialised
+    per call site when that field is a compile-time constant of the caller's local struct at the
+    call (straight-line code only; fields a callback writes through its pointer are never used):
+    variant functions `cb[field=v]`.
   * Anything not recognised becomes `unknown`, which the checker rejects.
 The output is rewritten only when its content changes.
 """
